@@ -72,7 +72,7 @@ pub(crate) fn any_method() -> Method {
     }
 }
 
-// @harness props=C16,C05 unwind=13 cap=600 mem=4
+// @harness props=C16,C05 unwind=13 cap=600 mem=1
 // @fn StatusCode::raw
 // @claim every status code serializes to its documented three-digit number; the 11 numbers are pairwise distinct
 // @bounds all 11 variants (exhaustive)
@@ -277,7 +277,7 @@ pub(crate) fn model(b: &Built) -> Out {
     o
 }
 
-// @harness props=C05 props_thorough=C03 tiers=quick:N=0,K=1|N=3,K=1;thorough:N=0,K=1|N=3,K=1|N=0|N=1|N=2|N=11|N=12|N=101 unwind=max(28,N+2) cap=3000 mem=4 covers=4
+// @harness props=C05 props_thorough=C03 tiers=quick:N=0,K=1|N=3,K=1;thorough:N=0,K=1|N=3,K=1|N=0|N=1|N=2|N=11|N=12|N=101 unwind=max(28,N+2) cap=3000 mem=13 covers=4
 // @fn Response::new Response::set_body Response::set_content_length Response::set_content_type Response::set_deprecation Response::set_encoding Response::set_server Response::set_allow Response::allow_method Response::write_all StatusLine::write_all ResponseHeaders::write_all ResponseHeaders::write_allow_header ResponseHeaders::write_deprecation_header Response::write_body StatusCode::raw Version::raw Method::raw MediaType::as_str
 // @claim write_all into a Vec equals the documented layout byte for byte (length and an arbitrary index), for symbolic status, version, flags, allow list (0..3 symbolic methods via either setter), server string, optional set_content_length(None) before the body; Content-Length present <=> status not in {100,204} or a body was set, and equals the body length
 // @bounds body: unset (N=0) or N-1 symbolic bytes; status x version symbolic over all 22 combinations; builder calls in one fixed order; K=1 fixes content type (json), server string (default) and the number of Allow entries (2, methods symbolic); K=2 additionally no Allow, Deprecation or Accept-Encoding lines (status and version stay symbolic); K=3 additionally status 200 and HTTP/1.1
@@ -397,7 +397,7 @@ impl Write for ArrSink {
     }
 }
 
-// @harness props=C05 tiers=quick:N=4,K=3,M=0|N=4,K=3,M=2;thorough:N=4,K=3,M=0|N=4,K=3,M=2|N=4,K=3,M=9|N=12,K=3,M=0|N=4,K=2,M=0 unwind=max(28,N+2) cap=2400 mem=4 covers=1
+// @harness props=C05 tiers=quick:N=4,K=3,M=0|N=4,K=3,M=2;thorough:N=4,K=3,M=0|N=4,K=3,M=2|N=4,K=3,M=9|N=12,K=3,M=0|N=4,K=2,M=0 unwind=max(28,N+2) cap=2400 mem=8 covers=1
 // @fn Response::write_all StatusLine::write_all ResponseHeaders::write_all Response::write_body
 // @claim a sink that accepts only part of a write receives exactly the bytes a Vec receives
 // @bounds body of N-1 symbolic bytes; one write call (M=0: the body, the last call; otherwise call number M) accepts only a symbolic non-empty proper prefix; std's default write_all loop (real code) completes it
